@@ -5,7 +5,7 @@ from __future__ import annotations
 from vt.core import HarnessError as core_HarnessError
 from vt.ref import hap, tlv8
 
-STEPS = {"ip-add": 2, "ip-remove": 2, "ble-add": 2, "ble-remove": 2, "ip-verify-m2": 2, "ip-verify-m4": 4, "ble-frag-verify-m2": 2, "ble-frag-verify-m4": 4}
+STEPS = {"ip-add": 2, "ip-remove": 2, "ip-remove-facade": 2, "ble-remove-facade": 2, "ble-add": 2, "ble-remove": 2, "ip-verify-m2": 2, "ip-verify-m4": 4, "ble-frag-verify-m2": 2, "ble-frag-verify-m4": 4}
 
 
 def _reply_items(p):
@@ -53,10 +53,48 @@ def _judge(p, raised, returned):
     return []
 
 
+def _facade(rig):
+    """The application-facing Controller with this rig's pairing registered under an alias: remove_pairing(alias) is what applications call."""
+    from aiohomekit.characteristic_cache import CharacteristicCacheMemory
+    from aiohomekit.controller.controller import Controller
+
+    c = Controller(char_cache=CharacteristicCacheMemory())
+    c.aliases["alias"] = rig.pairing
+    c.pairings[rig.pairing.id] = rig.pairing
+    return c
+
+
 def case_mgmt(p):
     """p['cells']: list of cell dicts sharing step; one rig for all of them."""
     step = p["step"]
     out = []
+    if step.endswith("-facade"):
+        # (a fresh rig per cell: the facade shuts the pairing down whatever happens)
+        for cell in p["cells"]:
+            cell = dict(cell, step=step)
+            if step.startswith("ip"):
+                from vt.env.iprig import IpRig, std_handler
+
+                rig = IpRig(seed=p.get("seed", 0))
+                rig.acc.handler = std_handler({("POST", "/pairings"): lambda *a, cell=cell: (cell.get("http", 200), tlv8.encode(_reply_items(cell)), "application/pairing+tlv8")})
+                rig.connect()
+            else:
+                from vt.env.blerig import BleRig
+
+                rig = BleRig(seed=p.get("seed", 0))
+                rig.acc.pairings_reply = _reply_items(cell)
+            try:
+                try:
+                    ret, exc = rig.run(_facade(rig).remove_pairing("alias")), None
+                    ret = "returned"
+                except Exception as e:  # noqa: BLE001
+                    ret, exc = None, e
+                out += _judge(cell, exc, ret)
+            finally:
+                rig.close()
+            if out:
+                break
+        return out
     if step.startswith("ip-verify"):
         return case_ip_verify(p)
     if step.startswith("ip"):
@@ -299,9 +337,10 @@ def case_ble_shutdown(p):
                 return data
 
             rig.acc.gatt_read = gatt_read
-            coro = rig.pairing.add_pairing("new-ctl", "ab" * 32, "User") if step == "ble-add" else rig.pairing.remove_pairing("someone-else")
+            coro = rig.pairing.add_pairing("new-ctl", "ab" * 32, "User") if step == "ble-add" else rig.pairing.remove_pairing(rig.pairing.pairing_data["iOSPairingId"] if p.get("own") else "someone-else")
             task = rig.loop.create_task(coro)
             shut = None
+            dropped = False
             trace = []
             i = 0
             for _ in range(400):
@@ -317,6 +356,10 @@ def case_ble_shutdown(p):
                         menu.append("newest")
                 if shut is None:
                     menu.append("shutdown")
+                if not dropped and rig.client is not None and rig.client.is_connected and p.get("drops"):
+                    menu.append("drop")  # the accessory hangs up
+                    if live and live[0][1] == "read":
+                        menu.append("oldest-then-drop")  # ... right after the data of this read
                 if not menu:
                     if not rig.loop.fire_next_timer():
                         break
@@ -331,7 +374,16 @@ def case_ble_shutdown(p):
                 i += 1
                 act = menu[c]
                 trace.append(act)
-                if act == "shutdown":
+                if act == "oldest-then-drop":
+                    dropped = True
+                    rig.release(override="then-drop")
+                elif act == "drop":
+                    dropped = True
+                    rig.client.peer_disconnect()
+                    for w in rig.waiting:
+                        if not w[0].done():
+                            w[0].set_result(None)
+                elif act == "shutdown":
                     shut = rig.loop.create_task(rig.pairing.shutdown())
                 elif act == "oldest":
                     rig.release()
@@ -349,7 +401,7 @@ def case_ble_shutdown(p):
             judged = cell["err"] != "absent" or cell["state"] not in ("expected", "absent")
             if judged and reply_read["n"] and tuple(trace) not in seen_traces:
                 seen_traces.add(tuple(trace))
-                out.append((f"{step}:error-reply-reported-as-done:shutdown-in-flight", {"step": step, "err": cell["err"], "state": cell["state"], "schedule": trace, "returned": repr(task.result())}))
+                out.append((f"{step}:error-reply-reported-as-done:" + ("link-dropped-after-the-reply" if dropped and shut is None else "shutdown-in-flight"), {"step": step, "own_pairing": bool(p.get("own")), "err": cell["err"], "state": cell["state"], "schedule": trace, "returned": repr(task.result())}))
                 break
         finally:
             rig.close()
@@ -385,6 +437,8 @@ def cells(tier):
         for err in (["02", "07"] if tier == "quick" else [e for e in ERRORS if e != "absent"]):
             if err in ERRORS:
                 yield ("mgmt", dict(step=step, err=err, state="expected", subset=[], errpos="last", style="ble", shutdown=True))
+                if step == "ble-remove":
+                    yield ("mgmt", dict(step=step, err=err, state="expected", subset=[], errpos="last", style="ble", shutdown=True, own=True, drops=True))
 
     for step in [s_ for s_ in STEPS if not s_.startswith("ble-frag")]:
         for err in ERRORS:
